@@ -487,8 +487,26 @@ class Renderer:
             # fields: split at depth-0 commas
             pos = o + 1
             fields = []
+            def field_comma(p0):
+                """next comma at bracket depth 0 AND angle depth 0 (generic arguments such as HashMap<String, String>)"""
+                d = a = 0
+                k = p0
+                while k < c:
+                    ch = s.m[k]
+                    if ch in '([{':
+                        d += 1
+                    elif ch in ')]}':
+                        d -= 1
+                    elif ch == '<':
+                        a += 1
+                    elif ch == '>' and s.m[k - 1] != '-' and a > 0:
+                        a -= 1
+                    elif ch == ',' and d == 0 and a == 0:
+                        return k
+                    k += 1
+                return -1
             while pos < c:
-                j = depth0_find(s.m, pos, c, ',')
+                j = field_comma(pos)
                 e = j if j >= 0 else c
                 seg = s.m[pos:e]
                 mf = re.search(r'(?:pub(?:\([^)]*\))?\s+)?(\w+)\s*:', re.sub(r'#\[[^\]]*\]', lambda m_: ' ' * len(m_.group(0)), seg))
